@@ -8,7 +8,8 @@ Engine S (symtrace) + Coquelicot.  Three tracers instantiate the unmodified temp
   trace_eig.cxx  EIGEN-BASED criteria: the public Hosford functions on a diagonal stress (a = 2, 6, 8): documented value,
                  gradient, Jacobian (ties included), homogeneity, Hosford(2) = von Mises; the assembly of the second derivative from the
                  eigen-data (Hosford, Barlat), every tie branch against the specification formula
-Quick: N = 1, 2, a = 2, 6, assembly 2D and Hosford 3D.  Thorough adds N = 3, a = 8, Barlat's 3D eigenvector terms.
+Quick: N = 1 (all four), N = 2 (Drucker, Cazacu 2004 iso), a = 2, 6, assembly 2D and 3D.  Thorough adds N = 2 for the orthotropic criteria, N = 3,
+a = 8, Barlat's Phi(vp1, vp2, seq) and its derivatives (a = 6).
 Everything that is not proved (2D/3D Hosford and Barlat through the eigen solvers, Mohr-Coulomb, ...) is checked BY EXECUTION of the
 real double code against central finite differences (trace run, driver run) -- labelled as such; it is also the failing-input search."""
 import math, os, re
@@ -171,7 +172,7 @@ def main(c):
               "eigen-data (C22EigSpec.v iso_hess) is the specification; that it is the Frechet derivative is assumed mathematics (checked by finite differences only)")
     # ---------------------------------------------------------------- Coq jobs (at most 4 at a time)
     Ns = c.pick([1, 2], [1, 2, 3])
-    As = c.pick([6, 2], [6, 2, 8])
+    As = c.pick([6], [6, 2, 8])   # quick: one exponent (time); a = 2 (von Mises) and 8 in the thorough tier
     jobs = {
         "old": ([gens["trace"], "C22Spec.v", "C22Proofs.v", "Properties_C22.v"], [], 5),
         "invbase": ([gens["trace_inv"], "C22InvSpec.v", "C22InvTac.v", "C22InvCrit.v", "C22InvStatements.v"], [], 0),
@@ -179,14 +180,19 @@ def main(c):
         "asm3h": (["C22Eig_asm3h.v", "Properties_C22eig_asm3h.v"], ["eigbase"], 2),
         "asm2": (["C22Eig_asm2.v", "Properties_C22eig_asm2.v"], ["eigbase"], 6),
     }
+    jobs["asm3b"] = (["C22Eig_asm3b.v", "Properties_C22eig_asm3b.v"], ["eigbase"], 3)
     if not c.quick():
-        jobs["asm3b"] = (["C22Eig_asm3b.v", "Properties_C22eig_asm3b.v"], ["eigbase"], 2)
+        jobs["barS6"] = (["C22Eig_barS6.v", "Properties_C22eig_barS6.v"], ["eigbase"], 2)
     for a in As:
         jobs["hos%d" % a] = (["C22Eig_hos%d.v" % a, "Properties_C22eig_hos%d.v" % a], ["eigbase"], 4)
+    FAM = {"drk": "iso", "c4i": "iso", "c01": "ort", "c4o": "ort"}
     for N in Ns:
-        jobs["cuts%d" % N] = (["C22InvCuts%d.v" % N], ["invbase"], 3 - N)
         for X in INV:
-            jobs["inv_%s_%d" % (X, N)] = (["C22Inv_%s_%d.v" % (X, N), "Properties_C22inv_%s_%d.v" % (X, N)], ["cuts%d" % N], 10 - 3 * N)
+            if c.quick() and N == 2 and X != "drk":
+                continue   # quick: only Drucker in 2D; the other criteria in 2D (and everything in 3D) in the thorough tier (time)
+            cj = "cuts_%s%d" % (FAM[X], N)
+            jobs[cj] = (["C22InvCuts_%s%d.v" % (FAM[X], N)], ["invbase"], 3 - N)
+            jobs["inv_%s_%d" % (X, N)] = (["C22Inv_%s_%d.v" % (X, N), "Properties_C22inv_%s_%d.v" % (X, N)], [cj], 10 - 3 * N)
     ex = ThreadPoolExecutor(max_workers=1)
     fcoq = ex.submit(run_jobs, c, jobs, 4)
 
@@ -212,13 +218,14 @@ def main(c):
     results = fcoq.result()
     ex.shutdown()
     c.coverage["rule"] = (
-        "Coq, all reals: invariant-based criteria {Drucker 1949, Cazacu 2001, Cazacu 2004 iso/ortho} x N=%s: variants agree, normal = gradient, second "
+        "Coq, all reals: invariant-based criteria {Drucker 1949, Cazacu 2001, Cazacu 2004 iso/ortho} x N=%s (quick: orthotropic ones only N=1): variants agree, normal = gradient, second "
         "derivative = Jacobian (every entry), symmetry, homogeneity, on {above threshold, J2^3 - c J3^2 > 0 resp. J2 > 0 and J2^(3/2) - c J3 > 0}; Hosford "
         "a=%s on diagonal stresses (ties included): value documented, gradient, Jacobian, symmetry, homogeneity, a=2 is von Mises; assembly of the Hosford "
-        "/ Barlat second derivative from the eigen-data, every tie branch (2D%s). Execution: corpus (3 generic + %d tie patterns and corner-zone points "
+        "/ Barlat second derivative from the eigen-data, every tie branch (2D, 3D)%s. Execution: corpus (3 generic + %d tie patterns and corner-zone points "
         "per dimension) + seeded stresses x N=1,2,3 x {Drucker, Cazacu 2001/2004, Hosford and Barlat with default and Jacobi eigen solvers, Mohr-Coulomb}: "
         "same value, homogeneity, normal and second derivative vs central finite differences, symmetry; Barlat(projector) = Hosford"
-        % (Ns, As, ", 3D" if c.quick() else ", 3D incl. Barlat", stats.get("tie", 0)))
+        % (Ns, As, "" if c.quick() else "; Barlat's Phi(vp1, vp2, seq), a=6: documented value, independent of seq, gradient and Jacobian with respect to the six "
+           "eigenvalues, Phi(u, u) = Hosford", stats.get("tie", 0)))
     c.coverage["traces_validated_against_impl"] = nag
     c.coverage["executions_against_finite_differences"] = stats.get("cases", 0)
     c.coverage["executions_on_tie_patterns"] = stats.get("tie", 0)
@@ -245,6 +252,9 @@ def main(c):
                 if b.startswith("Properties") and b not in compiled:
                     c.coverage["obligations"] += nthm(c, b)
             for (fn, line, thm, msg) in res.failed:
+                ls = re.findall(r'line (\d+), characters', msg or "")
+                if ls:
+                    line = int(ls[-1])   # the first "File .. line" of coqc's output is a warning of the Require lines
                 if line and not fn.startswith("Properties"):
                     try:
                         src = open(os.path.join(c.dir, "coq", fn)).read().splitlines()
